@@ -55,6 +55,8 @@ def is_instance(v, t):
             return t in ("Tensor", "Parameter")
         if v[1] == "module":
             return t == "Module" or t == v[2]
+        if v[1] == "other":
+            return False      # torch.Generator etc.: no type of the universe matches
     if tag == "nprng":
         return t == "Generator"
     if tag == "logger":
